@@ -796,3 +796,75 @@ func H13j_Numbers() {
 		}
 	}
 }
+
+// ---------------------------------------------------------------------- C05
+
+var strLawLens = []int{0, 1, 125, 126, 127, 128, 129, 16381, 16382, 16383, 16384, 16385}
+
+type strRow struct {
+	S string `plenc:"1"`
+	N int    `plenc:"2"`
+}
+type strOuter struct {
+	R strRow         `plenc:"1"`
+	M map[string]int `plenc:"2"`
+	Z int            `plenc:"3"`
+}
+
+// H05b_StringLaws: the codec laws for the length-delimited leaf codecs
+// (string, []byte, interned string, null.String) on values whose length sits
+// on each side of the 1/2/3-byte length-prefix boundaries, under a symbolic
+// tag index (1- and 2-byte tags); and the same string inside a nested struct
+// and as a map key, where the enclosing prefixes come from those sizes.
+func H05b_StringLaws() {
+	p := newPlenc(cfgDef)
+	L := strLawLens[vrt.Choice("len", len(strLawLens))]
+	b := make([]byte, L)
+	if L > 0 {
+		b[0], b[L-1] = vrt.U8("b0"), vrt.U8("bN")
+	}
+	s := string(b)
+	switch vrt.Choice("codec", 5) {
+	case 0:
+		c, err := p.CodecForType(reflect.TypeOf(s))
+		vrt.Assert("codec ok", err == nil)
+		codecLaws(c, unsafe.Pointer(&s), false, true)
+	case 1:
+		c, err := p.CodecForType(reflect.TypeOf(b))
+		vrt.Assert("codec ok", err == nil)
+		codecLaws(c, unsafe.Pointer(&b), false, true)
+	case 2:
+		c, err := p.CodecForTypeWithTag(reflect.TypeOf(s), "intern")
+		vrt.Assert("codec ok", err == nil)
+		codecLaws(c, unsafe.Pointer(&s), false, true)
+	case 3:
+		ns := null.String{}
+		ns.Valid, ns.String = true, s
+		c, err := p.CodecForType(reflect.TypeOf(ns))
+		vrt.Assert("codec ok", err == nil)
+		codecLaws(c, unsafe.Pointer(&ns), false, true)
+	default:
+		in := strOuter{R: strRow{S: s, N: 1}, M: map[string]int{s: 2}, Z: 3}
+		data, err := p.Marshal(nil, &in)
+		vrt.Assert("marshal ok", err == nil)
+		var row []byte
+		if L > 0 {
+			row = refLenField(row, 1, b)
+		}
+		row = refVarint(refTag(row, 0, 2), 2)
+		exp := refLenField(nil, 1, row)
+		var entry []byte
+		if L > 0 {
+			entry = refLenField(entry, 1, b)
+		}
+		entry = refVarint(refTag(entry, 0, 2), 4)
+		exp = refVarint(refTag(exp, 3, 2), 1)
+		exp = refVarint(exp, uint64(len(entry)))
+		exp = append(exp, entry...)
+		exp = refVarint(refTag(exp, 0, 3), 6)
+		vrt.Assert("bytes == documented encoding", vrt.BytesEq(data, exp))
+		var out strOuter
+		vrt.Assert("unmarshal ok", p.Unmarshal(data, &out) == nil)
+		vrt.Assert("round trip", vrt.And(out.R.S == s, vrt.And(out.R.N == 1, out.Z == 3)))
+	}
+}
